@@ -178,3 +178,17 @@ reg("C13", "c13",
     "computes on the logged population.",
     "SHA-256 collisions ignored; the cache is built by git-bug itself from entities written through the entity API.",
     "DESIGN.md section 4, C13")
+
+reg("C10", "c10",
+    "TLA+ spec Snapshot.tla (operation semantics transcribed operator by operator) enumerated by TLC; one implementation test per "
+    "transition through three paths; long random sequences folded by TLC",
+    "TLC enumerates every sequence create.s (|s| <= 3 over 33 call instances covering every operation kind, valid / unknown / "
+    "non-comment edit targets, forced and filtered label changes with duplicates and absent removals, metadata collisions, no-op) "
+    "and checks the property's clauses as theorems (sorted duplicate-free labels, one comment per create/add-comment with the text "
+    "of its latest edit, duplicate-free actors/participants, one timeline entry per state-changing operation, incremental = from "
+    "scratch). Every state is replayed through bug.Compile in memory (twice), through commit + bug.Read + Compile, and through the "
+    "cache's incrementally maintained snapshot, and the fully projected snapshot (title, status, labels, comments, actors, "
+    "participants, timeline with edit history, per-operation metadata) must equal the specification's. Random sequences of 20-300 "
+    "calls executed on the code are folded by TLC with the same operators.",
+    "Texts and labels are abstracted to integers; unicode fidelity belongs to C04. TLC, the harness projection code trusted.",
+    "DESIGN.md section 4, C10")
